@@ -153,11 +153,27 @@ func (c *wsConn) nextMessage() {
 		return
 	}
 	vhook("reader.msg", c)
+	// While this goroutine waits for the connection loop to take the message nobody
+	// is reading from the connection, so no read deadline can expire. If the loop is
+	// inside a write to a peer that has fallen silent (a write has no deadline of its
+	// own) it never comes back for the message: bound the wait like a read is bounded.
+	var handoffTimeout <-chan time.Time
+	if c.timeout > 0 {
+		t := time.NewTimer(c.timeout)
+		defer t.Stop()
+		handoffTimeout = t.C
+	}
 	select {
 	case c.incoming <- r:
 	case <-c.exiting:
 		// the main loop has exited (e.g. its context was cancelled) and will
 		// never receive this message
+	case <-handoffTimeout:
+		c.errLk.Lock()
+		c.incomingErr = errors.New("connection loop did not take a message within the timeout")
+		c.errLk.Unlock()
+		_ = conn.Close()
+		close(c.incoming)
 	}
 }
 
@@ -847,6 +863,11 @@ func (c *wsConn) readFrame(ctx context.Context, r io.Reader) {
 	buf, err := io.ReadAll(c.autoResetReader(r)) // todo buffer pool
 	if err != nil {
 		vhook("reader.readerr", c)
+		// as in nextMessage: nothing more will be read from this connection, and the
+		// connection loop, which has to act on that, may be inside a write to it
+		// (this is still the connection the frame was read from: the next one is
+		// installed only after a read has failed and the loop has seen it)
+		_ = c.conn.Close()
 		c.readError <- xerrors.Errorf("reading frame into a buffer: %w", err)
 		return
 	}
